@@ -31,9 +31,16 @@ _EXTRA = {
 
 
 def _blocks():
+    import c04
     import c09
     B = dict(c09.BLOCKS)
     B.update(_EXTRA)
+    # every remaining library block (constructors of the C04 table): the block's own matrix is the oracle
+    for name, (ctor, params) in c04.BLOCKS.items():
+        if name in B or name.startswith(("UserWaveguide", "PolRot", "FPRGaussian")) or name.endswith("_expanded"):
+            continue       # already carry modes / are expansions / too slow for the quick tier
+        B[name] = dict(gen=(lambda r, ints, ps=tuple(params): {q: 1.0 + r.randint(0, 64) / 64.0 for q in ps}),
+                       make=(lambda a, c=ctor: c()), kw=(lambda a: dict(a)))
     return B
 
 
